@@ -87,6 +87,20 @@ func httpServeContent(w http.ResponseWriter, r *http.Request, modtime time.Time,
 		ranges = nil
 	}
 
+	// The caller positioned content at the first range of the raw Range header.
+	// That is not always where the response decided on above starts (If-Range
+	// mismatch, skipped unsatisfiable range, ignored ranges), so reposition it.
+	if s, ok := content.(io.Seeker); ok && r.Method != http.MethodHead {
+		var start int64
+		if len(ranges) > 0 {
+			start = ranges[0].start
+		}
+		if _, err := s.Seek(start, io.SeekStart); err != nil {
+			http.Error(w, err.Error(), http.StatusInternalServerError)
+			return
+		}
+	}
+
 	// We only support a single range request, if more than one is submitted we just send back the first
 	if len(ranges) > 0 {
 		ra := ranges[0]
